@@ -1303,6 +1303,12 @@ pub fn tag_panic(case: &Case, file: &str, msg: &str) -> String {
     if kind == "overflow" && extreme {
         return "i32-overflow".into();
     }
+    // in-range operands (|v| <= 10^6) whose PRODUCT leaves i32: `Val * Val` in the bounds of `mul`
+    let has_mul = case.steps.iter().any(|s| matches!(s, S::Bin { op: 2, .. }) || s.show().contains('*') || s.show().contains("mul("));
+    let big = case.steps.iter().flat_map(|s| s.ints()).any(|v| v.abs() >= 46_341);
+    if kind == "overflow" && file.ends_with("variables/core.rs") && has_mul && big {
+        return "product-bounds-overflow".into();
+    }
     "-".into()
 }
 
@@ -1769,6 +1775,18 @@ fn stat_case(out: &mut Out, stream: &str, case: &Case, run: &Run) {
     }
 }
 
+/// some step mentions two integers at least 200 000 apart (a domain of that many values: every
+/// search node clones it, which makes the run slow far beyond its timeout)
+fn big_domain(case: &Case) -> bool {
+    case.steps.iter().any(|s| {
+        let v = s.ints();
+        match (v.iter().min(), v.iter().max()) {
+            (Some(a), Some(b)) => b.saturating_sub(*a) >= 200_000,
+            _ => false,
+        }
+    })
+}
+
 /// largest float magnitude a case can create (literals, squared when a product is present)
 fn float_risk(case: &Case) -> bool {
     let floaty = case.steps.iter().any(|s| match s {
@@ -1918,6 +1936,13 @@ fn run_isolated(out: &mut Out, iso: &Iso, case: &Case, stream: &str) {
             out.stat(&format!("{stream}.abort"));
             out.fail(line, "C17", &tag_abort(case, &at), format!("process aborted in `{at}` (allocation failure under a 1.5 GB address-space limit, or a non-unwinding panic): [{}]", case.show()));
         }
+        None if !float_risk(case) && big_domain(case) => {
+            // a space with a domain of several 10^5 values is cloned at every search node: the run
+            // is slow (and honours its timeout late), not hung; not judged (limits are C15's subject)
+            let at = text.lines().filter(|l| l.starts_with("P\t")).last().map(|l| l[2..].to_string()).unwrap_or_default();
+            out.emit(format!("#mal {stream} {} => SLOW in {at} (killed after {patience} ms, not judged)", case.show()), "-");
+            out.stat(&format!("{stream}.slow-killed"));
+        }
         None => {
             let at = text.lines().filter(|l| l.starts_with("P\t")).last().map(|l| l[2..].to_string()).unwrap_or_default();
             let line = out.emit(format!("#mal {stream} {} => HANG in {at}", case.show()), "-");
@@ -1942,7 +1967,7 @@ fn api_case(out: &mut Out, id: &str, r: &mut Rng, extreme: bool, iso: &Iso) {
     if std::env::var("MAL_TRACE").is_ok() {
         eprintln!("{id} {}", case.show());
     }
-    if !iso.child && (float_risk(&case) || is_ext || iso.fixed) {
+    if !iso.child && (float_risk(&case) || is_ext || iso.fixed || big_domain(&case)) {
         run_isolated(out, iso, &case, stream);
         return;
     }
